@@ -349,7 +349,10 @@ class _UTF8String(DERType):
         if constructed:
             raise ASN1DecodeError('UTF8 STRING should not be constructed')
 
-        return content.decode('utf-8')
+        try:
+            return content.decode('utf-8')
+        except UnicodeDecodeError:
+            raise ASN1DecodeError('Invalid UTF8 STRING') from None
 
 
 @DERTag(SEQUENCE, (list, tuple), constructed=True)
